@@ -8,9 +8,9 @@ head = "## 12. Seeded changes (independent sub-agents) and which checks catch th
 i = s.index(head)
 table = subprocess.run([sys.executable, os.path.join(HERE, "tools", "seed_table.py")], capture_output=True, text=True).stdout
 text = head + """
-Ten rounds of 19 fresh sub-agents each (190 changes). Every agent got only the text of one property and its own scratch
-git worktree of /repo under /tmp (nothing from /verif; rounds 2-10 were additionally told which ideas had already
-been used for that property, so that the ten changes per property differ in mechanism (rounds 5-10 were also asked to stay out of the files and functions the earlier ones had touched)). Each wrote one realistic
+Eleven rounds of 19 fresh sub-agents each (209 changes). Every agent got only the text of one property and its own scratch
+git worktree of /repo under /tmp (nothing from /verif; rounds 2-11 were additionally told which ideas had already
+been used for that property, so that the ten changes per property differ in mechanism (rounds 5-11 were also asked to stay out of the files and functions the earlier ones had touched)). Each wrote one realistic
 regression (a tidy-up, an off-by-one, a moved statement, a swapped argument, ...) that still passes the 88 baseline
 tests, plus a stand-alone demonstration. Each change was confirmed by `tools/seed_collect.sh` in a *fresh* scratch
 worktree (demo exits 0 on HEAD, 1 with the patch; baseline pytest command passes with the patch) and then evaluated by
@@ -18,9 +18,9 @@ worktree (demo exits 0 on HEAD, 1 with the patch; baseline pytest command passes
 live in `seeded/<id>/` (`patch.diff`, `demo.py`, `notes.md`, `confirm.json`, `eval.json`, `meta.json`); none was ever
 committed to /repo, all worktrees were removed.
 
-**Result: all 190 are reported by their own property's quick check as `VIOLATION` with a concrete failing input** (not
-merely as a broken correspondence). That was not so at first: 9 of the first 19, 14 of the second 19, 13 of the
-third 19, 8 of the fourth 19, 11 of the fifth 19, 14 of the sixth 19, 9 of the seventh 19, 11 of the eighth 19, 11 of the ninth 19 and 11 of the tenth 19 were initially missed or seen only as a broken correspondence. Each miss was a hole in a *generator* or a
+**Result: all 209 were reported by their own property's quick check as `VIOLATION` with a concrete failing input** (not
+merely as a broken correspondence); 208 still are - C16-k has since been neutralised by a repair of /repo that its own author's side remark led to (1237b39; `seeded/C16-k/NEUTRALISED.md`). That was not so at first: 9 of the first 19, 14 of the second 19, 13 of the
+third 19, 8 of the fourth 19, 11 of the fifth 19, 14 of the sixth 19, 9 of the seventh 19, 11 of the eighth 19, 11 of the ninth 19, 11 of the tenth 19 and 8 of the eleventh 19 were initially missed or seen only as a broken correspondence. Each miss was a hole in a *generator* or a
 missing *clause*, never a reason to weaken a check; what was added (all of it also runs on the unchanged tree):
 
 * round 1: coarse search grids and call provenance (C02), budget stress + reserve correspondence (C03), runs started at
@@ -121,6 +121,26 @@ missing *clause*, never a reason to weaken a check; what was added (all of it al
   direction basis per poll step" (C14: a second basis started a new group in my per-poll analysis), a multi-start loop over the same bound
   vectors (C09), the mesh-tolerance stop judged against the USER's `tol_mesh` instead of the value the run derived from it (C13), int8 /
   int16 cost tables spanning more than half the type's range (C04), double refits under the slice sampler (C16).
+
+* round 11: a start point BADS draws itself (x0 omitted) with the constraint boundary laid between the drawn point and its mesh point (C02),
+  a twin instance constructed earlier from the very same bound arrays as foreign history (C07), partly non-finite start points - the Lean
+  `specValid` now calls a definition invalid as soon as ONE coordinate is, whatever the other start coordinates are (C08: the broken
+  correspondence alone had been reported, without a failing input), every selection made inside a poll step is centred on the incumbent (C15),
+  large declared noise with dense runs of 3-4 failed fits under the slice sampler (C16), a user-configured strategy portfolio - the hedge's
+  portfolio is compared with `options['search_method']` entry by entry (C18), `options['random_seed']` edited between construction and
+  `optimize()` with the seed the run actually applied as the reference (C19), two seeded instances constructed and run interleaved (C20).
+  Side remarks about the unchanged tree followed up and fixed as genuine defects (section 11, rows 30-34): float32 dyadic `tol_mesh` (9957c29),
+  targets that modify their argument in place (e2129d2), an infinite start coordinate on an unbounded variable (5f4c4c8), a Cholesky failure
+  in the FINAL posterior computation of the initial fit (0a5a128; new injection point `fault_where = "late"`), the slice sampler rejecting its
+  start point on degenerate data (1237b39). Not pursued: a second `optimize()` call on the same object leaves stale tail entries in
+  `iteration_history` and continues the first run's evaluation count (one call per object is the documented use; C19/C04 speak of "the run"),
+  `(value, None)` / `(value, [sd])` / `(value, "a")` under specified noise raise TypeError (C10's assumption, stated in its evidence: only the
+  SD faults the property names are demanded to be ValueErrors), `options['noise_final_samples']` goes negative when the budget is below the
+  noisy initial design (no final samples are taken, `yval_vec` is None), the ES loop's random-search fallback discards earlier survivors
+  (nothing is proposed then - the property's sentence is about the point that IS proposed), `lb_search` one ulp below `lb` for
+  `poll_mesh_multiplier = 3` with hard bounds 1e6 plausible widths away at meshes below the spacing of `lb` (helper level only), the initial
+  GP fit conditions on the whole log whatever `n_train_max` says (as modelled: `fevals`), `gp.s2` is an all-NaN column in unknown-noise mode,
+  `np.seterr(divide="ignore")` is left set after the first poll step.
 
 Two of those generator extensions exposed genuine defects on the pinned tree (section 11: `noise_size` with specified
 noise; three boolean advanced options), which were repaired by `fix:` commits; one more (`fit_lik=False`) is a known finding.
